@@ -27,6 +27,11 @@ import (
 
 const prop = "C17"
 
+const (
+	confOperator     = "MRKconfoperator"
+	confOperatorPass = "SENT00000-config-operator-password-5be1"
+)
+
 type job struct {
 	Mode string
 	Args any
@@ -51,7 +56,12 @@ func replayFilter() (map[string]any, bool) {
 func child(mode string) {
 	run := vk.Start(prop)
 	adminPass := "SENT00000-admin-password-c17f3a9d"
-	srv, err := vsrv.Start(vsrv.Config{Root: os.Getenv("VERIF_CHILD_DIR"), WritableGroups: true, AdminPass: adminPass, LogToFile: true})
+	// config.json also defines a user who is NOT an administrator
+	srv, err := vsrv.Start(vsrv.Config{Root: os.Getenv("VERIF_CHILD_DIR"), WritableGroups: true, AdminPass: adminPass, LogToFile: true,
+		ExtraConfig: map[string]any{"users": map[string]any{
+			"root":        map[string]any{"password": adminPass, "permissions": "admin"},
+			confOperator: map[string]any{"password": confOperatorPass, "permissions": "op"},
+		}}})
 	if err != nil {
 		run.Inconclusive("server start: " + err.Error())
 		os.Exit(0)
@@ -62,6 +72,7 @@ func child(mode string) {
 		vk.ChildArgs(&a)
 		w := newWorld(run, srv, uint64(a.Variant*100+a.Target))
 		w.addSent(adminPass, "admin-password")
+		w.addSent(confOperatorPass, "config-user-password")
 		runMatrix(w, a)
 	case "pres":
 		var a presArgs
@@ -79,10 +90,10 @@ func main() {
 	}
 	run := vk.Start(prop)
 	var jobs []job
-	variants := run.Pick(1, 10)
+	variants := run.Pick(1, 16)
 	targets := 5
 	shards := run.Pick(2, 1)
-	presBatches := run.Pick(6, 60)
+	presBatches := run.Pick(6, 100)
 	presSeqs := run.Pick(20, 50)
 	if rep, ok := replayFilter(); ok {
 		args, _ := rep["args"].(map[string]any)
